@@ -132,6 +132,9 @@ void harness(void)
   X = in_X;
   for (k = 0; k < LMAX + 8; k++) orig[k] = in_code[k];
 
+#ifndef CBS_LMAX_DIRECT
+#define CBS_LMAX_DIRECT 512
+#endif
 #if defined(K_WRITEBYTES)
   {
     int split;
@@ -155,7 +158,7 @@ void harness(void)
       else if (X < end0 + (long)len) CHECK(L1(X) == stored((unsigned)(X - end0), len, orig), "no split: line byte j lands at payload offset LenSoFar+j");
       WITNESS("no split");
       if (in_fill + len >= CodeBufferSize) WITNESS("flush path");
-#if LMAX >= 512
+#if LMAX >= CBS_LMAX_DIRECT
       if (len >= CodeBufferSize) WITNESS("direct write path");
 #endif
     }
